@@ -428,8 +428,9 @@ from vlib import func_gen_py18 as F
 FHARNESS = os.path.join(VERIF, "harness", "h_pyfunc.py")
 FCLASSES = {"keyword-parameter": "func-compile:keyword-parameter", "local-initializer": "func-value:local-initializer-dropped",
             "repeat-increment": "func-value:repeat-bound-exclusive", "skip": "func-value:skip-is-break",
-            "repeat-increment-while": "func-value:repeat-while-does-not-end-loop", "skip-under-until": "func-value:skip-jumps-over-until"}
-FPRIORITY = ["keyword-parameter", "local-initializer", "skip-under-until", "skip", "repeat-increment-while", "repeat-increment"]
+            "repeat-increment-while": "func-value:repeat-while-does-not-end-loop", "skip-under-until": "func-value:skip-jumps-over-until",
+            "case-selector-name": "func-value:variable-named-case-selector"}
+FPRIORITY = ["keyword-parameter", "local-initializer", "case-selector-name", "skip-under-until", "skip", "repeat-increment-while", "repeat-increment"]
 
 
 def run_func_impl(b, work, f, args):
